@@ -80,9 +80,11 @@ def contains(t, pred: Callable) -> bool:
 
 def rewrite(t, f: Callable):
     """bottom-up rewrite: f is applied to every rebuilt tuple node"""
-    if not isinstance(t, tuple):
+    if not isinstance(t, tuple) or not t:
         return t
     new = tuple(rewrite(c, f) if isinstance(c, tuple) else c for c in t)
+    if not isinstance(new[0], str):
+        return new
     r = f(new)
     return new if r is None else r
 
